@@ -168,7 +168,8 @@ def shapes(tier):
 NUM_SHAPES = [("int", "dec", n, sign, lz) for n in (1, 2, 5, 10, 18, 19, 20) for sign in ("", "-") for lz in (False, True) if not (lz and n == 1)] + \
              [("uint", "dec", n, "", lz) for n in (1, 3, 19, 20) for lz in (False, True) if not (lz and n == 1)] + \
              [("int", "hex", n, sign, False) for n in (1, 2, 8, 15, 16, 17) for sign in ("", "-")] + \
-             [("uint", "hex", n, "", False) for n in (1, 16, 17)]
+             [("uint", "hex", n, "", False) for n in (1, 16, 17)] + \
+             [("uint", "dec", n, "-", lz) for n in (1, 2, 3) for lz in (False, True) if not (lz and n == 1)] + [("uint", "hex", 1, "-", False), ("uint", "hex", 2, "-", False)]
 FLOATS = ["0.0", "1.5", "-2.5e3", "1e10", "1E-7", ".5", "5.", "0.1", "123456789.123456789", "1.7976931348623157e308", "5e-324", "-0.0",
           "00.5", "1e+2", "9007199254740993.0", "0.30000000000000004", "1e400", "-1e400", "1.7976931348623159e308", "1e-400", "0e0", "1E400",
           "123456789012345678901234567890.0", "0.000000000000000000000000000001", "1.e2", "4.9e-324", "2.2250738585072011e-308"]
@@ -356,6 +357,9 @@ def _num_harness(typ, base, n, sign, lz):
     lit = [z3.IntVal(ord(c)) for c in head] + ds + [z3.IntVal(ord(c)) for c in suffix]
     lo, hi = (MIN64, MAX64) if typ == "int" else (0, MAXU64)
     fits = z3.And(val >= lo, val <= hi)
+    neg_uint = typ == "uint" and sign == "-"
+    if neg_uint:
+        fits = z3.BoolVal(False)  # `-Nu` negates a uint (also for N = 0): an evaluation error, never a value
     ttype = "INT_LIT" if typ == "int" else "UINT_LIT"
     evaluator = ev.Evaluator(ast=None, activation=ev.Activation())
     tag = f"{typ}/{base}"
@@ -381,7 +385,7 @@ def _num_harness(typ, base, n, sign, lz):
         ctext = conc(vals)
         cval = int(ctext.rstrip("uU"), 16 if base != "dec" else 10)
         kd, v = common.outcome(lambda: common.make_program(ctext, "compiled").evaluate({}))
-        okc = (kd == "value" and int(v) == cval) if lo <= cval <= hi else (kd == "error")
+        okc = (kd == "value" and int(v) == cval) if (lo <= cval <= hi and not neg_uint) else (kd == "error")
         obs.append(Ob(f"C07/{tag}/compiled-representative", z3.BoolVal(okc), note=f"`{ctext}` under CompiledRunner: {kd} {v!r}"[:160],
                       tags={"leading_zero": bool(lz), "kind": kd, "exc": type(v).__name__ if kd == "escape" else ""}))
         return obs
